@@ -156,22 +156,29 @@ theorem eligible_selected (decls : List Decl) (d : Decl) (hd : d ∈ decls)
       (by simp [recall]) e hold hmatch (by simp [hm])
 
 /-- … and (all-at-once lifecycle, nothing recorded for it yet, positive limits) it is actually invoked
-    in that first cycle, as the first attempt. -/
+    in that first cycle, as the first attempt — whether the object is unchanged (resume cause) or was
+    edited while the operator was down (update cause with the resuming handlers mixed in). -/
 theorem eligible_invoked (decls : List Decl) (d : Decl) (hd : d ∈ decls)
     (hini : d.gate.initial = true) (hreason : d.gate.reason = none) (e : Event)
     (hl : e.byListing = true) (hdel : e.deleted = false) (hm : e.marked = false)
-    (hold : e.oldAbsent = false) (hdiff : e.diffNonEmpty = false) (hmatch : e.matchF d.id = true)
+    (hold : e.oldAbsent = false) (hmatch : e.matchF d.id = true)
     (hs : e.suppressed = false) (hlc : e.lifecycle = .allAtOnce)
     (P : C02.Store) (hP : P d.id = none)
     (hto : ∀ t, (e.limits d.id).timeout = some t → 0 < t)
     (hre : ∀ n, (e.limits d.id).retries = some n → 0 < n) :
-    (d.id, 0) ∈ (step decls none P e).invoked := by
-  obtain ⟨hres, hsel⟩ := eligible_selected decls d hd hini hreason e hl hdel hm hold hdiff hmatch
-  have hreason' : (cfgOf decls (recall none e) e).reason = "resume" := by
-    show reasonStr (causeOf (recall none e) e).reason = "resume"
-    rw [hres]; rfl
+    (d.id, 0) ∈ (step decls none P e).invoked ∧
+      (causeOf (recall none e) e).reason = (if e.diffNonEmpty then .update else .resume) := by
+  have hsel := matching_selected decls d hd hini hreason (recall none e) (by simp [recall, hl]) (by simp [recall])
+      (by simp [recall]) e hold hmatch (by simp [hm])
+  have hcause : (causeOf (recall none e) e).reason = (if e.diffNonEmpty then .update else .resume) := by
+    simp only [causeOf, C05.detect, C05.detectReason, inOf, recall, hl, hdel, hm, hold]
+    cases e.diffNonEmpty <;> simp
+  have hreason' : handlerReasons.contains (cfgOf decls (recall none e) e).reason = true := by
+    show handlerReasons.contains (reasonStr (causeOf (recall none e) e).reason) = true
+    rw [hcause]
+    cases e.diffNonEmpty <;> decide
   have hinv := due_invoked_all_at_once (cfgOf decls (recall none e) e) P e.now e.now1 e.exec
-    (by rw [hreason']; decide) hlc d.id hsel (selected_sub_owned decls (recall none e) e d.id hsel)
+    hreason' hlc d.id hsel (selected_sub_owned decls (recall none e) e d.id hsel)
     (by simp [startRec, hP, fresh, Rec.awakened, Rec.sleeping, Rec.finished])
     (by
       simp only [startRec, hP, fresh, precheckFails]
@@ -188,9 +195,19 @@ theorem eligible_invoked (decls : List Decl) (d : Decl) (hd : d ∈ decls)
         | none => simp; omega
         | some n => have h2 := hre n hn; simp; exact ⟨by omega, by omega⟩)
   rw [hP] at hinv
+  refine ⟨?_, hcause⟩
   unfold step
   simp only [hs, Bool.false_eq_true, if_false]
   exact hinv
+
+/-- A first cycle that is suppressed (the finalizer is being added, or the object's own patch is awaited)
+    loses nothing: the object stays "to be resumed", so the next event still carries the resuming cause. -/
+theorem suppressed_keeps_initial (decls : List Decl) (e : Event) (P : C02.Store)
+    (hl : e.byListing = true) (hdel : e.deleted = false) (hs : e.suppressed = true) :
+    (step decls none P e).mem = some { noticed := true, fullyHandled := false, resumed := [] } ∧
+    (step decls none P e).invoked = [] := by
+  unfold step
+  simp [hs, hdel, recall, hl]
 
 /-! ### At most once per object per process
 
